@@ -14,7 +14,10 @@ Lemma C18_facts_ok :
   design_now = design_safe /\ proposal_checks_group = Known true /\ loop_owns_watched_set = Known true /\
   (* the membership book's locks are taken in one order everywhere: address book, then connection cache, then the
      subscriber list (the "held -> acquired" relation of cluster/conn.go has no cycle) *)
-  conn_lock_order_acyclic = Known true.
+  conn_lock_order_acyclic = Known true /\
+  (* the raft transport's group table: nothing but table accesses happens under its lock (no message delivery, which
+     can wait for a leader; no dial; no log deletion), so loading and unloading groups waits for table accesses only *)
+  transport_lock_only_around_table = Known true.
 Proof. repeat split; reflexivity. Qed.
 
 (* for every backlog of membership changes and catalogue entries, every number of proposals the allocator makes for
